@@ -272,7 +272,8 @@ def observe(scn, hist, st):
 
 NICKS = ['Bob', ' Bob ', 'axi 7', '\tNextDraw_01\r\n', 'x', 'abcdefghijklmnop', '  A', 'Zed9  ', '', '   ',
          'BOB', 'bob', '  abcdefghijklmnop', 'abcdefghijklmnop  ', '   ABCDEFGHIJKLMNO ', 'Studio  East', 'Old', 'OLD',
-         'prior name', 'Tango 2', 'Quill', 'T', 'Q,1', 'QT', 'Emma', 'a \t b', 'Errol', 'Egg Errand', 'Err', 'OK', '!x']
+         'prior name', 'Tango 2', 'Quill', 'T', 'Q,1', 'QT', 'Emma', 'a \t b', 'Errol', 'Egg Errand', 'Err', 'OK', '!x',
+         '007', '0042', '1.0', '10.', '+7', '-0', '1e3', '42', '1_0', ' 7 ', '0x1F']
 
 
 def world_for(rng, prior_motor=None, ram=None):
@@ -420,6 +421,26 @@ def sweep_expand(cell):
                           {'op': 'env', 'what': 'set', 'port': port, 'state': {'nick': 'Zed'}},
                           call(0, 'connect'), call(0, 'query_nickname')])
             yield {'prop': PROP, 'world': world, 'ops': ops, 'faults': {}}
+        # the same request issued again after the board forgot (power cycle) or somebody else changed it
+        repeats = [[call(0, 'var_write_int32', [17, 0]), call(0, 'var_write_int32', [0x11223344, 3])],
+                   [call(0, 'var_write_int32', [0x11223344, 3]), call(0, 'var_read_int32', [3])],
+                   [call(0, 'var_write', [200, 7]), call(0, 'var_read', [7])],
+                   [call(0, 'motors_enable', [2, 2]), call(0, 'motors_query_enabled')],
+                   [call(0, 'motors_enable', [0, 3]), call(0, 'motors_query_enabled')],
+                   [call(0, 'motors_enable', [4, 0]), call(0, 'motors_query_enabled')],
+                   [call(0, 'write_nickname', ['Repeat']), call(0, 'query_nickname')]]
+        for seq in repeats:
+            for how in ('power', 'other_writer'):
+                world = world_for(rng)
+                port = world['boards'][0]['port']
+                ops = [{'op': 'new', 'obj': 0}, call(0, 'connect')] + [dict(o) for o in seq]
+                if how == 'power':
+                    ops += [call(0, 'disconnect'), {'op': 'env', 'what': 'replug', 'port': port}, call(0, 'connect')]
+                else:
+                    ops += [{'op': 'env', 'what': 'set', 'port': port,
+                             'state': {'ram': list(range(60, 92)), 'en1': 0, 'en2': 0, 'mode': 5, 'nick': 'Else'}}]
+                ops += [dict(o) for o in seq] + [dict(o) for o in seq]
+                yield {'prop': PROP, 'world': world, 'ops': mk_ops(ops), 'faults': {}}
         for nick in NICKS:
             world = world_for(rng)
             ops = mk_ops([{'op': 'new', 'obj': 0}, call(0, 'connect'), call(0, 'write_nickname', [nick]),
